@@ -16,6 +16,9 @@ mod tankan;
 #[cfg(test)]
 mod test_dic;
 
+#[cfg(chokan_verif)]
+pub mod verif;
+
 /// 解析グラフ上で利用する辞書の形式。
 ///
 /// ここで利用される辞書は、 `chokan-dic` プログラムから生成されるものが利用される
